@@ -33,6 +33,10 @@ type Env struct {
 	// bytes present, truncated name lengths, empty or 1-5 byte blobs). Only for legs that run
 	// under a memory cap with crash_is_violation.
 	HostileGroupMetadata bool
+	// HostileCounts: count-like request numbers a handler might size an allocation from
+	// (ListOffsets v0 MaxNumOffsets) are drawn from {negative, 0, 1, 2^25, 2^30, MaxInt32} as
+	// well. Only for legs that run under a memory cap with crash_is_violation.
+	HostileCounts bool
 	// MaxArray is the largest array length drawn (default 3).
 	MaxArray int
 }
@@ -339,6 +343,8 @@ func genInt(t *rapid.T, name string, bits int, env *Env, path string) int64 {
 		return int64(rapid.SampledFrom([]int{-1, 0, 1, 5, 100, 30000}).Draw(t, path))
 	case ln == "timestamp":
 		return rapid.SampledFrom([]int64{-2, -1, 0, 1, 1700000000000}).Draw(t, path)
+	case ln == "maxnumoffsets" && env.HostileCounts && rapid.Bool().Draw(t, path+"?hostile-count"):
+		return rapid.SampledFrom([]int64{1<<31 - 1, 1 << 30, 1 << 25, -1, -1 << 31, 0, 1}).Draw(t, path)
 	case ln == "maxnumoffsets":
 		return int64(rapid.IntRange(-1, 5).Draw(t, path))
 	case strings.Contains(ln, "bytes"):
